@@ -8,7 +8,7 @@ RO_BOUND = {
     "S_U16": 4, "S_BOOL": 3, "S_BOOL3": 5, "S_SB": 8, "S_SB2": 14, "S_SS1": 10, "S_SE1": 10, "S_CE": 3,
     "S_SE16": 6, "S_PS": 9, "S_PE": 10, "V_U8": 8, "V_U8L32": 10, "V_U16": 10, "V_BOOL": 8, "V_SB": 14,
     "V_A3": 12, "V_P": 10, "STR8": 5, "STR16": 6, "STRP": 6, "X_U8": 6, "X_B": 6, "X_U16": 8, "X_V": 6,
-    "X_V16": 8, "X_S": 5, "X_P": 8, "U_S1": 12, "U_S2": 14, "U_S3": 6, "U_S4": 7, "U_S5": 12, "U_S6": 12, "X_V8L16": 8, "X_U8L16": 8, "X_U8P": 8, "U_E5": 18, "U_PS": 10,
+    "X_V16": 8, "X_S": 5, "X_P": 8, "U_S1": 12, "U_S2": 14, "U_S3": 6, "U_S4": 7, "U_S5": 12, "U_S6": 12, "X_V8L16": 8, "X_U8L16": 8, "X_U8P": 8, "U_E5": 18, "U_E6": 8, "U_PS": 10,
     "U_E1": 16, "U_E2": 8, "U_E3": 12, "U_E4": 14, "U_PE": 10,
 }
 SHAPE_DOC = {
@@ -25,17 +25,18 @@ SHAPE_DOC = {
     "X_V8L16": "FlexVec<FlatVec<u8,u8>,u16> (offset type more aligned than the items)",
     "X_U8L16": "FlexVec<u8,u16> (offset type more aligned than the sized items)",
     "X_U8P": "FlexVec<u8,le::U16> (portable two-byte offset type, one-byte items)",
-    "U_E5": "unsized enum{A,B(u8,u32,u8)} (three-field variant with inner padding)", "U_S5": "unsized struct{u16,FlatVec<u16,u8>}", "U_PS": "portable unsized struct{le::U16,FlatVec<le::U16,le::U16>}",
+    "U_E5": "unsized enum{A,B(u8,u32,u8)} (three-field variant with inner padding)",
+    "U_E6": "unsized enum{A,N(unsized enum{A,B(Bool),C(FlatVec<u8,u8>)})} (enum nested in enum)", "U_S5": "unsized struct{u16,FlatVec<u16,u8>}", "U_PS": "portable unsized struct{le::U16,FlatVec<le::U16,le::U16>}",
     "U_E1": "unsized enum{A,B(u8,u16),C{u32,FlatVec<u8,u16>}} (the test suite's)", "U_E2": "unsized enum{A,B(Bool),C(FlatVec<u8,u8>)}",
     "U_E3": "unsized enum(tag u16){A,B(Bool,u16),C{u8,FlatVec<u8,u8>}}", "U_E4": "unsized enum{A,S(unsized struct)}",
     "U_PE": "portable unsized enum{A,B(le::U16),C(portable unsized struct)}",
 }
 # shapes whose harnesses cost <= ~150 s: quick tier
 RO_QUICK = SIZED + ["V_U8", "V_U8L32", "V_U16", "V_BOOL", "V_P", "V_A3", "STR8", "U_S1", "U_S2", "U_S5", "U_S6", "U_PS",
-                    "U_E1", "U_E2", "U_E3", "U_E4", "U_E5", "U_PE", "X_U8", "X_U16", "X_U8L16", "X_U8P"]
+                    "U_E1", "U_E2", "U_E3", "U_E4", "U_E5", "U_E6", "U_PE", "X_U8", "X_U16", "X_U8L16", "X_U8P"]
 RO_THOROUGH = ["V_SB", "STR16", "STRP", "X_B", "X_V", "X_P", "U_S3", "U_S4", "X_V16", "X_S", "X_V8L16"]
 STRINGY = {"STR8", "STR16", "STRP", "U_S3", "X_S"}
-CONSTRAINED = {"S_BOOL", "S_BOOL3", "S_SB", "S_SB2", "S_SE1", "S_CE", "S_SE16", "S_PE", "V_BOOL", "V_SB", "STR8", "STR16",
+CONSTRAINED = {"U_E6", "U_E5", "S_BOOL", "S_BOOL3", "S_SB", "S_SB2", "S_SE1", "S_CE", "S_SE16", "S_PE", "V_BOOL", "V_SB", "STR8", "STR16",
                "STRP", "X_B", "X_U16", "X_V16", "X_S", "U_S3", "U_E1", "U_E2", "U_E3", "U_E4", "U_PE"}
 SLOW = {"X_U8": 900, "X_U16": 1100, "X_U8L16": 1100, "X_U8P": 1100, "X_B": 1100, "X_V": 2700, "X_P": 1200, "U_S4": 900, "STR16": 900, "STRP": 900,
         "U_S3": 900, "V_SB": 900, "X_V16": 3000, "X_S": 3000, "X_V8L16": 3000, "STR8": 600, "V_A3": 600}
@@ -100,13 +101,13 @@ prop("C19", "content errors are reported at the byte that is wrong",
 EM_COST = {"S_U16": 60, "S_SB": 60, "S_SS1": 60, "S_SE1": 90, "S_CE": 60, "S_SE16": 60, "S_PS": 60, "S_PE": 90,
            "V_U8": 300, "V_U8L32": 400, "V_U16": 400, "V_SB": 900, "V_A3": 600, "V_P": 400, "STR8": 600, "STR16": 900,
            "STRP": 900, "X_U8": 900, "X_U16": 1500, "X_V": 2400, "U_S1": 600, "U_S2": 600, "U_S6": 900, "U_S3": 900, "U_S4": 1200,
-           "U_PS": 600, "U_E1": 900, "U_E5": 400, "X_U8P": 1200, "U_E2": 400, "U_E3": 600, "U_E4": 800, "U_PE": 800}
+           "U_PS": 600, "U_E1": 900, "U_E5": 400, "U_E6": 600, "X_U8P": 1200, "U_E2": 400, "U_E3": 600, "U_E4": 800, "U_PE": 800}
 EM_QUICK = ["S_U16", "S_SB", "S_SS1", "S_SE1", "S_CE", "S_SE16", "S_PS", "S_PE", "V_U8", "V_U8L32", "V_U16", "V_A3", "V_P",
-            "STR8", "U_S1", "U_S2", "U_S6", "U_PS", "U_E1", "U_E2", "U_E3", "U_E4", "U_E5", "U_PE", "X_U8", "X_U8P"]
+            "STR8", "U_S1", "U_S2", "U_S6", "U_PS", "U_E1", "U_E2", "U_E3", "U_E4", "U_E5", "U_E6", "U_PE", "X_U8", "X_U8P"]
 EM_THOROUGH = ["V_SB", "STR16", "STRP", "X_U16", "X_V", "U_S3", "U_S4"]
 EM_BOUND = {"S_U16": 5, "S_SB": 9, "S_SS1": 12, "S_SE1": 12, "S_CE": 3, "S_SE16": 7, "S_PS": 9, "S_PE": 10, "V_U8": 6,
             "V_U8L32": 12, "V_U16": 10, "V_SB": 16, "V_A3": 11, "V_P": 10, "STR8": 6, "STR16": 8, "STRP": 7, "X_U8": 8,
-            "X_U16": 14, "X_V": 10, "U_S1": 11, "U_S2": 13, "U_S6": 13, "U_S3": 7, "U_S4": 9, "U_PS": 12, "U_E1": 20, "U_E5": 20, "X_U8P": 10, "U_E2": 7,
+            "X_U16": 14, "X_V": 10, "U_S1": 11, "U_S2": 13, "U_S6": 13, "U_S3": 7, "U_S4": 9, "U_PS": 12, "U_E1": 20, "U_E5": 20, "U_E6": 8, "X_U8P": 10, "U_E2": 7,
             "U_E3": 10, "U_E4": 13, "U_PE": 13}
 
 
@@ -114,7 +115,9 @@ def em(family, what, quick=None, thorough=None):
     out = []
     for tier, shapes in (("quick", EM_QUICK if quick is None else quick), ("thorough", EM_THOROUGH if thorough is None else thorough)):
         for sh in shapes:
-            out.append(H("em::%s::%s" % (sh, family), EM_COST[sh] if family == "emplace" else max(300, EM_COST[sh] // 2), 10 if sh.startswith("X_") or sh in ("V_SB", "U_E1") else 8,
+            if family == "default" and sh == "X_V":
+                continue  # exhausts 10 GB; the default of a FlexVec is covered by X_U8, X_U16, X_U8P, U_S4
+            out.append(H("em::%s::%s" % (sh, family), EM_COST[sh] if family == "emplace" else max(300, EM_COST[sh] // 2), 18 if sh == "X_V" else 10 if sh.startswith("X_") or sh in ("V_SB", "U_E1") else 8,
                          "every value (all variants, container fill 0..3 items, scalars full range), every buffer length 0..%d, every address residue, arbitrary prior buffer contents; %s" % (EM_BOUND[sh], SHAPE_DOC[sh]),
                          what, tier=tier))
     return out
@@ -122,8 +125,8 @@ def em(family, what, quick=None, thorough=None):
 
 ASG = {"V_U8_a": ("V_U8", 5, 400), "V_A3_a": ("V_A3", 9, 600), "STR8_a": ("STR8", 5, 900), "X_U8_a": ("X_U8", 6, 1500),
        "U_S1_a": ("U_S1", 10, 900), "U_S2_a": ("U_S2", 12, 900), "U_S3_a": ("U_S3", 6, 1500), "U_E1_a": ("U_E1", 16, 1500),
-       "U_E5_a": ("U_E5", 16, 900), "U_E2_a": ("U_E2", 6, 600), "U_E3_a": ("U_E3", 10, 900), "U_E4_a": ("U_E4", 12, 1200), "U_PE_a": ("U_PE", 9, 900)}
-ASG_QUICK = ["V_U8_a", "V_A3_a", "U_S1_a", "U_E1_a", "U_E2_a", "U_E3_a", "U_E5_a", "U_PE_a"]
+       "U_E5_a": ("U_E5", 16, 900), "U_E6_a": ("U_E6", 7, 900), "U_E2_a": ("U_E2", 6, 600), "U_E3_a": ("U_E3", 10, 900), "U_E4_a": ("U_E4", 12, 1200), "U_PE_a": ("U_PE", 9, 900)}
+ASG_QUICK = ["V_U8_a", "V_A3_a", "U_S1_a", "U_E1_a", "U_E2_a", "U_E3_a", "U_E5_a", "U_E6_a", "U_PE_a"]
 
 
 def asg(what):
